@@ -29,14 +29,15 @@ FUNCTIONS = ['playback/tape_cassettes/in_memory/in_memory_tape_cassette.py::InMe
              'playback/tape_cassettes/s3/s3_basic_facade.py::S3BasicFacade.iter_keys',
              'playback/tape_cassette.py::TapeCassette.match_against_recorded_metadata',
              'playback/tape_cassette.py::TapeCassette.iter_recordings_metadata',
-             'playback/studio/recordings_lookup.py::find_matching_recording_ids']
+             'playback/studio/recordings_lookup.py::find_matching_recording_ids',
+             'playback/tape_cassette.py::TapeCassette.save_recording']
 STUBS = ['random.shuffle / random.choice in the cassettes -> one fixed non-identity permutation (only the result SET is checked)',
          'jsonpickle -> token model; json.loads of the S3 metadata object -> decode of the token; in-memory store -> '
          'association list (symbolic ids); os/io -> in-memory directory; boto3 -> bucket model; uuid/datetime -> models; '
          'parse.compile -> model (only extract_recording_category uses it now)']
 ASSUMPTIONS = ['category texts contain none of "/", ".", "{", "}" (id / file-name / format separators)']
 OUTSIDE = ['order and distribution of random_results (only the set is checked)', 'date arguments on the file / in-memory '
-           'cassettes (documented as ignored); S3 dates are C16', 'more than 3 saved recordings']
+           'cassettes (documented as ignored); S3 dates are C16', 'more than 3 saved recordings', 're-saving a recording more than once; re-save on a later day on S3 (C16 covers day folders)']
 
 INCOMPLETE = '_tape_recorder_incomplete_recording'
 MKINDS = ['absent', 'none', 'false', 'true', 'int']
@@ -195,6 +196,83 @@ def metadata_listing(c1: str, c2: str, q: str, i1: int, i2: int) -> bool:
     return ctx.done(ok, 'listed')
 
 
+def resave(ku: int, kb: int, ka: int, j: int, between: int) -> bool:
+    """
+    pre: 0 <= ku <= 1 and 0 <= kb < 5 and 0 <= ka < 5 and 0 <= j <= 1 and 0 <= between <= 1
+    post: _
+    """
+    # a recording that is fetched, given new metadata and saved again under its id is listed according to the metadata
+    # it has NOW - also when a filtered lookup ran before the re-save (no stale answer from an earlier lookup)
+    from playback.studio.recordings_lookup import find_matching_recording_ids, RecordingLookupProperties
+    ctx.begin()
+    kind, fkind = ctx.S('cassette'), ctx.S('filter')
+    ku, j, between = ctx.pick(ku, range(2)), ctx.pick(j, range(2)), ctx.pick(between, range(2))
+    if fkind == 'default-skip-incomplete':
+        if kb >= 4 or ka >= 4:
+            return ctx.done(True)
+        kinds = ['absent', 'none', 'false', 'true']
+    else:
+        kinds = MKINDS
+    kb, ka = kinds[ctx.pick(kb, range(len(kinds)))], kinds[ctx.pick(ka, range(len(kinds)))]
+    other = ['absent', 'true'][ku]
+    field = INCOMPLETE if fkind == 'default-skip-incomplete' else 'flag'
+
+    def meta_of(k):
+        return {'other': 1} if k == 'absent' else {'other': 1, field: _mval(k, 5)}
+
+    with ctx.untraced():        # every solver variable was turned into a constant by pick() above
+        r = rigm.build(kind)
+        cas = r.cassette
+        metas = [meta_of(other), meta_of(other)]
+        metas[j] = meta_of(kb)
+        ids = []
+        for m in metas:
+            rec = cas.create_new_recording('a')
+            rec.set_data('k', 1)
+            rec.add_metadata(m)
+            cas.save_recording(rec)
+            ids.append(rec.id)
+
+        def listed():
+            if fkind == 'default-skip-incomplete':
+                holder = type('TR', (), {'tape_cassette': cas})()
+                return list(find_matching_recording_ids(holder, 'a', RecordingLookupProperties(None)))
+            return list(cas.iter_recording_ids('a', metadata=_filter(fkind)))
+
+        def wanted():
+            flt = {INCOMPLETE: [False, None]} if fkind == 'default-skip-incomplete' else _filter(fkind)
+            return [rid for rid, m in zip(ids, metas) if _matches(flt, m)]
+
+        ok = True
+        if between:
+            got = listed()
+            ok = ok and sorted(got) == sorted(wanted())
+        if ka == 'absent':
+            # metadata cannot be removed through the public API: re-save with unchanged metadata
+            new = dict(metas[j])
+        else:
+            new = dict(metas[j])
+            new[field] = _mval(ka, 5)
+        fetched = cas.get_recording(ids[j])
+        fetched.add_metadata({field: new[field]} if field in new else {})
+        cas.save_recording(fetched)
+        metas[j] = new
+        got = listed()
+        want = wanted()
+        ok = ok and sorted(got) == sorted(want) and len(set(got)) == len(got)
+        for g in got:
+            ok = ok and _matches({'other': 1}, cas.get_recording(g).get_metadata())
+        ok = ok and cas.get_recording(ids[j]).get_metadata().get(field) == new.get(field)
+    if between and (_matches_kind(fkind, meta_of(kb)) != _matches_kind(fkind, new)):
+        ctx.mark('verdict-changed-after-lookup')
+    return ctx.done(ok, 'verdict-changed-after-lookup')
+
+
+def _matches_kind(fkind, meta):
+    flt = {INCOMPLETE: [False, None]} if fkind == 'default-skip-incomplete' else _filter(fkind)
+    return _matches(flt, meta)
+
+
 _CASS = ['mem', 'file', 's3', 's3-noprefix']
 _Q = ['a', 'a_', '_a']
 _FIXCATS = ['a', 'a', 'a_']
@@ -209,6 +287,7 @@ _QS = [{'cassette': c, 'filter': f, 'q': q} for c in _CASS for f in ('none',) fo
 # not finish within the time budget on any cassette and are stated as not explored)
 _TS = _QS
 _W = {'cassette': 'file', 'filter': 'flag-true', 'cats': _FIXCATS, 'q': 'a'}
+_RS = [{'cassette': c, 'filter': f} for c in ('mem', 'file', 's3') for f in ('flag-true', 'default-skip-incomplete')]
 CONDITIONS = [
     {'fn': 'lookup', 'nontrivial': 'some-match-some-not',
      'what': 'saved recordings with symbolic category texts / metadata vs a query; sharded by (cassette, filter kind, query text '
@@ -221,4 +300,9 @@ CONDITIONS = [
                          'witness_shard': {'cassette': 'mem', 'q': 'a'}},
                'thorough': {'bounds': {'CL': 2, 'ALPHA': ['a', '_']}, 'timeout': 900, 'shards': [{'cassette': c, 'q': 'a'} for c in ('mem', 'file', 's3')],
                             'witness_shard': {'cassette': 'mem', 'q': 'a'}}}},
+    {'fn': 'resave', 'nontrivial': 'verdict-changed-after-lookup',
+     'what': 'save, (filtered lookup), fetch + change metadata + save again under the same id, filtered lookup: the listing '
+             'follows the metadata stored now; sharded by (cassette, filter kind)',
+     'tiers': {'quick': {'bounds': {}, 'timeout': 600, 'shards': _RS, 'witness_shard': _RS[0]},
+               'thorough': {'bounds': {}, 'timeout': 900, 'shards': _RS, 'witness_shard': _RS[0]}}},
 ]
